@@ -123,8 +123,9 @@ def exact_obligations(e, n):
                     witness_terms=wt, role="linear-segments", replay=replay, prefer=nice)
             continue
         if p.nonzero:
-            e.prove(tag + ":divisors-nonzero", "no divisor is zero on this path (wide segments have width >= eps > 0)", assum,
-                    z3.And(*[d != 0 for d in p.nonzero]), dom_name="real", functions=FUNCS, witness_terms=wt,
+            e.prove_cases(tag + ":divisors-nonzero", "no divisor is zero on this path (wide segments have width >= eps > 0; each divisor "
+                          "under the path condition and the quotients defined before it)", list(p.conds),
+                          sl.divisor_cases(p), dom_name="real", functions=FUNCS, witness_terms=wt,
                     role="linear-division-by-zero", replay=replay, prefer=nice)
         for i in range(n - 1):
             end, cs = segs[i]
